@@ -6,6 +6,7 @@ import InfluxQL.Lemmas.Neutral
 import InfluxQL.Lemmas.ScanNumber
 import InfluxQL.Lemmas.IntLit
 import InfluxQL.Lemmas.Digits
+import InfluxQL.Lemmas.TotalStmtHandlers
 import InfluxQL.Props.C06
 import InfluxQL.Props.C08
 /-
@@ -99,7 +100,7 @@ theorem scan_gap_piece (s : PState) (pre piece k : Str) (T : Token) (L : Str) (h
     rw [if_neg (by simp)]
 
 /-- `ScanIgnoreWhitespace` over a gap and one printed piece. -/
-theorem scanIW_piece (s : PState) (pre piece k : Str) (T : Token) (L : Str) (hpre : Gap pre)
+theorem scanIW_piece0 (s : PState) (pre piece k : Str) (T : Token) (L : Str) (hpre : Gap pre)
     (hs : s.Before (pre ++ (piece ++ k))) (hsc : ScansAs piece k T L) :
     ∃ lx s', scanIW.run s = .ok (lx, s') ∧ lx.tok = T ∧ lx.lit = L ∧ s'.Before k := by
   obtain ⟨lx, s', h, _, h1, h2, h3⟩ := scan_gap_piece s pre piece k T L hpre hs hsc
@@ -483,100 +484,6 @@ theorem scansAs_dot (k : Str) (hk : ∀ x t, k = x :: t → isDigit x = false) :
     if_true, hpk]
   exact ⟨trivial, trivial, Or.inl hk'⟩
 
-/-! ## parser steps over one piece -/
-
-section steps
-variable (s : PState) (pre piece k : Str)
-
-/-- `ParseIdent`. -/
-theorem parseIdent_piece (name : Str) (hpre : Gap pre) (hs : s.Before (pre ++ (piece ++ k)))
-    (hsc : ScansAs piece k .IDENT name) :
-    ∃ s', parseIdent.run s = .ok (name, s') ∧ s'.Before k := by
-  obtain ⟨lx, s', h, h1, h2, h3⟩ := scanIW_piece s pre piece k _ _ hpre hs hsc
-  refine ⟨s', ?_, h3⟩
-  unfold parseIdent
-  rw [P.run_bind _ _ s lx s' h]
-  simp [h1, h2, StateT.run, pure, StateT.pure, Except.pure]
-
-/-- `ScanIgnoreWhitespace` + comparison with the expected token. -/
-theorem expectTok_piece (t : Token) (L : Str) (exp : List String) (hpre : Gap pre)
-    (hs : s.Before (pre ++ (piece ++ k))) (hsc : ScansAs piece k t L) :
-    ∃ s', (expectTok t exp).run s = .ok ((), s') ∧ s'.Before k := by
-  obtain ⟨lx, s', h, h1, _, h3⟩ := scanIW_piece s pre piece k _ _ hpre hs hsc
-  refine ⟨s', ?_, h3⟩
-  unfold expectTok
-  rw [P.run_bind _ _ s lx s' h]
-  simp [h1, StateT.run, pure, StateT.pure, Except.pure]
-
-/-- An optional token that is present. -/
-theorem optTok_piece (t : Token) (L : Str) (hpre : Gap pre)
-    (hs : s.Before (pre ++ (piece ++ k))) (hsc : ScansAs piece k t L) :
-    ∃ s', (optTok t).run s = .ok (true, s') ∧ s'.Before k := by
-  obtain ⟨lx, s', h, h1, _, h3⟩ := scanIW_piece s pre piece k _ _ hpre hs hsc
-  refine ⟨s', ?_, h3⟩
-  unfold optTok
-  rw [P.run_bind _ _ s lx s' h]
-  simp [h1, StateT.run, pure, StateT.pure, Except.pure]
-
-/-- One step of `parseTokens`. -/
-theorem parseTokens_cons_piece (t : Token) (rest : List Token) (L : Str) (hpre : Gap pre)
-    (hs : s.Before (pre ++ (piece ++ k))) (hsc : ScansAs piece k t L) :
-    ∃ s', (parseTokens (t :: rest)).run s = (parseTokens rest).run s' ∧ s'.Before k := by
-  obtain ⟨lx, s', h, h1, _, h3⟩ := scanIW_piece s pre piece k _ _ hpre hs hsc
-  refine ⟨s', ?_, h3⟩
-  rw [parseTokens, P.run_bind _ _ s lx s' h]
-  simp [h1]
-
-theorem parseTokens_nil_run (s : PState) : (parseTokens []).run s = .ok ((), s) := rfl
-
-/-- `parseString`. -/
-theorem parseString_piece (v : Str) (hpre : Gap pre) (hs : s.Before (pre ++ (piece ++ k)))
-    (hsc : ScansAs piece k .STRING v) :
-    ∃ s', parseString.run s = .ok (v, s') ∧ s'.Before k := by
-  obtain ⟨lx, s', h, h1, h2, h3⟩ := scanIW_piece s pre piece k _ _ hpre hs hsc
-  refine ⟨s', ?_, h3⟩
-  unfold parseString
-  rw [P.run_bind _ _ s lx s' h]
-  simp [h1, h2, StateT.run, pure, StateT.pure, Except.pure]
-
-/-- `ParseUInt64` on the digits of `n ≤ MaxUint64`. -/
-theorem parseUInt64_piece (n : Nat) (hn : (n : Int) ≤ maxUInt64) (hpre : Gap pre)
-    (hs : s.Before (pre ++ (piece ++ k))) (hsc : ScansAs piece k .INTEGER (natDigits n)) :
-    ∃ s', parseUInt64.run s = .ok (n, s') ∧ s'.Before k := by
-  obtain ⟨lx, s', h, h1, h2, h3⟩ := scanIW_piece s pre piece k _ _ hpre hs hsc
-  refine ⟨s', ?_, h3⟩
-  unfold parseUInt64
-  rw [P.run_bind _ _ s lx s' h]
-  have hn' : ¬ ((n : Int) > maxUInt64) := by omega
-  simp [h1, h2, allDigits_natDigits, digitsVal_natDigits, hn', StateT.run, pure, StateT.pure, Except.pure]
-
-/-- `ParseInt(min, max)` on the digits of `n` within the range. -/
-theorem parseIntRange_piece (min max : Int) (n : Nat) (h1n : min ≤ (n : Int)) (h2n : (n : Int) ≤ max)
-    (hmax : (n : Int) ≤ maxInt64) (hpre : Gap pre)
-    (hs : s.Before (pre ++ (piece ++ k))) (hsc : ScansAs piece k .INTEGER (natDigits n)) :
-    ∃ s', (parseIntRange min max).run s = .ok ((n : Int), s') ∧ s'.Before k := by
-  obtain ⟨lx, s', h, h1, h2, h3⟩ := scanIW_piece s pre piece k _ _ hpre hs hsc
-  refine ⟨s', ?_, h3⟩
-  unfold parseIntRange
-  rw [P.run_bind _ _ s lx s' h]
-  have ha : ¬ ((n : Int) < minInt64 ∨ (n : Int) > maxInt64) := by unfold minInt64; omega
-  have hb : ¬ (min > (n : Int) ∨ (n : Int) > max) := by omega
-  simp [h1, h2, splitSign_natDigits, allDigits_natDigits, digitsVal_natDigits, ha, hb, StateT.run, pure, StateT.pure,
-    Except.pure]
-
-/-- `ParseDuration` on `FormatDuration(d)`. -/
-theorem parseDurationTok_piece (d : Int) (hd0 : 0 ≤ d) (hmax : d ≤ maxInt64) (hpre : Gap pre)
-    (hs : s.Before (pre ++ (piece ++ k))) (hsc : ScansAs piece k .DURATIONVAL (formatDuration d)) :
-    ∃ s', parseDurationTok.run s = .ok (d, s') ∧ s'.Before k := by
-  obtain ⟨lx, s', h, h1, h2, h3⟩ := scanIW_piece s pre piece k _ _ hpre hs hsc
-  refine ⟨s', ?_, h3⟩
-  unfold parseDurationTok
-  rw [P.run_bind _ _ s lx s' h]
-  have hp : parseDuration (formatDuration d) = .ok d := C08.parse_format d (by unfold minInt64; omega) hmax
-  simp [h1, h2, hp, StateT.run, pure, StateT.pure, Except.pure]
-
-end steps
-
 /-! ## looking one token ahead -/
 
 /-- Re-delivery: a token obtained by `ScanIgnoreWhitespace` and pushed back is delivered again,
@@ -644,6 +551,172 @@ theorem peeked_eof (s : PState) (hs : s.Before [eofRune]) : ∃ lx s', Peeked s 
     · exact scan_at_end s.r (by simpa [Cursor.chars] using hb)
   have h := scanIW_fresh s hn (by rw [htok]; decide) (by rw [htok]; decide) (by rw [htok]; decide)
   exact ⟨_, _, ⟨_, h, rfl⟩, htok⟩
+
+
+/-- `ScanIgnoreWhitespace` returns in every state. -/
+theorem scanIW_total (s : PState) : ∃ lx s1, scanIW.run s = .ok (lx, s1) := by
+  have h := scanIW_any s
+  unfold wp at h
+  cases hr : scanIW.run s with
+  | error e => rw [hr] at h; exact h.elim
+  | ok p => exact ⟨p.1, p.2, rfl⟩
+
+/-- After a look-ahead the next `ScanIgnoreWhitespace` behaves as before it. -/
+theorem Peeked.scanIW_eq {s : PState} {lx : Lexeme} {s' : PState} (h : Peeked s lx s') :
+    scanIW.run s' = scanIW.run s := by
+  obtain ⟨s1, h1, rfl⟩ := h
+  rw [h1]
+  exact scanIW_redeliver s lx s1 h1
+
+/-- The parser stands before `k`, possibly after having looked one token ahead (the token is in
+the push-back buffer). Every parser step that starts with `ScanIgnoreWhitespace` behaves the same
+in both situations. -/
+def PState.Around (s : PState) (k : Str) : Prop := ∃ s0, s0.Before k ∧ (s = s0 ∨ ∃ lx, Peeked s0 lx s)
+
+theorem PState.Before.around {s : PState} {k : Str} (h : s.Before k) : s.Around k := ⟨s, h, Or.inl rfl⟩
+
+theorem PState.Around.scanIW_eq {s : PState} {k : Str} (h : s.Around k) :
+    ∃ s0, s0.Before k ∧ scanIW.run s = scanIW.run s0 := by
+  obtain ⟨s0, hb, rfl | ⟨lx, hp⟩⟩ := h
+  · exact ⟨_, hb, rfl⟩
+  · exact ⟨s0, hb, hp.scanIW_eq⟩
+
+/-- The first significant token of `k` is not `t`. -/
+def NextNot (k : Str) (t : Token) : Prop :=
+  ∀ (s : PState) (lx : Lexeme) (s1 : PState), s.Before k → scanIW.run s = .ok (lx, s1) → lx.tok ≠ t
+
+/-- An optional token that is absent, from a state around `k`: the parser stays around `k`. -/
+theorem optTok_absent_around (t : Token) (s : PState) (k : Str) (hs : s.Around k) (hn : NextNot k t) :
+    ∃ s', (optTok t).run s = .ok (false, s') ∧ s'.Around k := by
+  obtain ⟨s0, hb, rfl | ⟨lx, hp⟩⟩ := hs
+  · obtain ⟨lx, s1, h1⟩ := scanIW_total s
+    have hp : Peeked s lx { s1 with n := s1.n + 1 } := ⟨s1, h1, rfl⟩
+    exact ⟨_, optTok_absent t hp (hn s lx s1 hb h1), s, hb, Or.inr ⟨lx, hp⟩⟩
+  · obtain ⟨s1, h1, _⟩ := id hp
+    exact ⟨s, optTok_absent' t hp (hn s0 lx s1 hb h1), s0, hb, Or.inr ⟨lx, hp⟩⟩
+
+/-- At the end of the input the next token is EOF. -/
+theorem nextNot_eof (t : Token) (ht : t ≠ .EOF) : NextNot [eofRune] t := by
+  intro s lx s1 hb h1
+  obtain ⟨lx', s', ⟨s1', h1', _⟩, he⟩ := peeked_eof s hb
+  rw [h1] at h1'
+  injection h1' with h1'
+  injection h1' with ha _
+  rw [ha, he]
+  exact fun e => ht e.symm
+
+/-! ## parser steps over one piece -/
+
+section steps
+variable (s : PState) (pre piece k : Str)
+
+/-- `ScanIgnoreWhitespace` over a gap and one printed piece, from a state around the text. -/
+theorem scanIW_piece (T : Token) (L : Str) (hpre : Gap pre)
+    (hs : s.Around (pre ++ (piece ++ k))) (hsc : ScansAs piece k T L) :
+    ∃ lx s', scanIW.run s = .ok (lx, s') ∧ lx.tok = T ∧ lx.lit = L ∧ s'.Before k := by
+  obtain ⟨s0, hb, he⟩ := hs.scanIW_eq
+  obtain ⟨lx, s', h, h1, h2, h3⟩ := scanIW_piece0 s0 pre piece k T L hpre hb hsc
+  exact ⟨lx, s', by rw [he]; exact h, h1, h2, h3⟩
+
+/-- The first significant token of a printed piece is its token. -/
+theorem nextNot_piece (T : Token) (L : Str) (t : Token) (hpre : Gap pre) (hsc : ScansAs piece k T L) (hne : T ≠ t) :
+    NextNot (pre ++ (piece ++ k)) t := by
+  intro s lx s1 hb h1
+  obtain ⟨lx', s', h, h1', _, _⟩ := scanIW_piece0 s pre piece k T L hpre hb hsc
+  rw [h1] at h
+  injection h with h
+  injection h with ha _
+  rw [ha, h1']
+  exact hne
+
+/-- `ParseIdent`. -/
+theorem parseIdent_piece (name : Str) (hpre : Gap pre) (hs : s.Around (pre ++ (piece ++ k)))
+    (hsc : ScansAs piece k .IDENT name) :
+    ∃ s', parseIdent.run s = .ok (name, s') ∧ s'.Before k := by
+  obtain ⟨lx, s', h, h1, h2, h3⟩ := scanIW_piece s pre piece k _ _ hpre hs hsc
+  refine ⟨s', ?_, h3⟩
+  unfold parseIdent
+  rw [P.run_bind _ _ s lx s' h]
+  simp [h1, h2, StateT.run, pure, StateT.pure, Except.pure]
+
+/-- `ScanIgnoreWhitespace` + comparison with the expected token. -/
+theorem expectTok_piece (t : Token) (L : Str) (exp : List String) (hpre : Gap pre)
+    (hs : s.Around (pre ++ (piece ++ k))) (hsc : ScansAs piece k t L) :
+    ∃ s', (expectTok t exp).run s = .ok ((), s') ∧ s'.Before k := by
+  obtain ⟨lx, s', h, h1, _, h3⟩ := scanIW_piece s pre piece k _ _ hpre hs hsc
+  refine ⟨s', ?_, h3⟩
+  unfold expectTok
+  rw [P.run_bind _ _ s lx s' h]
+  simp [h1, StateT.run, pure, StateT.pure, Except.pure]
+
+/-- An optional token that is present. -/
+theorem optTok_piece (t : Token) (L : Str) (hpre : Gap pre)
+    (hs : s.Around (pre ++ (piece ++ k))) (hsc : ScansAs piece k t L) :
+    ∃ s', (optTok t).run s = .ok (true, s') ∧ s'.Before k := by
+  obtain ⟨lx, s', h, h1, _, h3⟩ := scanIW_piece s pre piece k _ _ hpre hs hsc
+  refine ⟨s', ?_, h3⟩
+  unfold optTok
+  rw [P.run_bind _ _ s lx s' h]
+  simp [h1, StateT.run, pure, StateT.pure, Except.pure]
+
+/-- One step of `parseTokens`. -/
+theorem parseTokens_cons_piece (t : Token) (rest : List Token) (L : Str) (hpre : Gap pre)
+    (hs : s.Around (pre ++ (piece ++ k))) (hsc : ScansAs piece k t L) :
+    ∃ s', (parseTokens (t :: rest)).run s = (parseTokens rest).run s' ∧ s'.Before k := by
+  obtain ⟨lx, s', h, h1, _, h3⟩ := scanIW_piece s pre piece k _ _ hpre hs hsc
+  refine ⟨s', ?_, h3⟩
+  rw [parseTokens, P.run_bind _ _ s lx s' h]
+  simp [h1]
+
+theorem parseTokens_nil_run (s : PState) : (parseTokens []).run s = .ok ((), s) := rfl
+
+/-- `parseString`. -/
+theorem parseString_piece (v : Str) (hpre : Gap pre) (hs : s.Around (pre ++ (piece ++ k)))
+    (hsc : ScansAs piece k .STRING v) :
+    ∃ s', parseString.run s = .ok (v, s') ∧ s'.Before k := by
+  obtain ⟨lx, s', h, h1, h2, h3⟩ := scanIW_piece s pre piece k _ _ hpre hs hsc
+  refine ⟨s', ?_, h3⟩
+  unfold parseString
+  rw [P.run_bind _ _ s lx s' h]
+  simp [h1, h2, StateT.run, pure, StateT.pure, Except.pure]
+
+/-- `ParseUInt64` on the digits of `n ≤ MaxUint64`. -/
+theorem parseUInt64_piece (n : Nat) (hn : (n : Int) ≤ maxUInt64) (hpre : Gap pre)
+    (hs : s.Around (pre ++ (piece ++ k))) (hsc : ScansAs piece k .INTEGER (natDigits n)) :
+    ∃ s', parseUInt64.run s = .ok (n, s') ∧ s'.Before k := by
+  obtain ⟨lx, s', h, h1, h2, h3⟩ := scanIW_piece s pre piece k _ _ hpre hs hsc
+  refine ⟨s', ?_, h3⟩
+  unfold parseUInt64
+  rw [P.run_bind _ _ s lx s' h]
+  have hn' : ¬ ((n : Int) > maxUInt64) := by omega
+  simp [h1, h2, allDigits_natDigits, digitsVal_natDigits, hn', StateT.run, pure, StateT.pure, Except.pure]
+
+/-- `ParseInt(min, max)` on the digits of `n` within the range. -/
+theorem parseIntRange_piece (min max : Int) (n : Nat) (h1n : min ≤ (n : Int)) (h2n : (n : Int) ≤ max)
+    (hmax : (n : Int) ≤ maxInt64) (hpre : Gap pre)
+    (hs : s.Around (pre ++ (piece ++ k))) (hsc : ScansAs piece k .INTEGER (natDigits n)) :
+    ∃ s', (parseIntRange min max).run s = .ok ((n : Int), s') ∧ s'.Before k := by
+  obtain ⟨lx, s', h, h1, h2, h3⟩ := scanIW_piece s pre piece k _ _ hpre hs hsc
+  refine ⟨s', ?_, h3⟩
+  unfold parseIntRange
+  rw [P.run_bind _ _ s lx s' h]
+  have ha : ¬ ((n : Int) < minInt64 ∨ (n : Int) > maxInt64) := by unfold minInt64; omega
+  have hb : ¬ (min > (n : Int) ∨ (n : Int) > max) := by omega
+  simp [h1, h2, splitSign_natDigits, allDigits_natDigits, digitsVal_natDigits, ha, hb, StateT.run, pure, StateT.pure,
+    Except.pure]
+
+/-- `ParseDuration` on `FormatDuration(d)`. -/
+theorem parseDurationTok_piece (d : Int) (hd0 : 0 ≤ d) (hmax : d ≤ maxInt64) (hpre : Gap pre)
+    (hs : s.Around (pre ++ (piece ++ k))) (hsc : ScansAs piece k .DURATIONVAL (formatDuration d)) :
+    ∃ s', parseDurationTok.run s = .ok (d, s') ∧ s'.Before k := by
+  obtain ⟨lx, s', h, h1, h2, h3⟩ := scanIW_piece s pre piece k _ _ hpre hs hsc
+  refine ⟨s', ?_, h3⟩
+  unfold parseDurationTok
+  rw [P.run_bind _ _ s lx s' h]
+  have hp : parseDuration (formatDuration d) = .ok d := C08.parse_format d (by unfold minInt64; omega) hmax
+  simp [h1, h2, hp, StateT.run, pure, StateT.pure, Except.pure]
+
+end steps
 
 /-- How a handler ends on the printed form of its statement: `m` returns `a` and stops at `sK`
 exactly — or, when the statement ends where an optional clause could follow (`peek`), at `sK`
